@@ -7,3 +7,8 @@ def run(ctx):
     seqcommon.run_seq_only(ctx, "C08")
     if not ctx.replay:
         seqtie.initfile_stage(ctx, None, "C08")     # T1 stage "boot on an adversarial state file" (Model/SeqFile.v)
+
+
+def run(ctx, _inner=run):     # + T5-race (lib/racetie.py): data-race freedom, the assumption under every interleaving model; also re-runs its replay files
+    from lib import racetie
+    return racetie.stage(ctx, _inner, ["server", "server/session", "server/session/store"])
